@@ -52,6 +52,8 @@ let cmd_stmt (req : json) : json =
         | k -> failwith ("kind " ^ k)) in
     (match r with Obj l -> Obj (l @ [ ("value", ev) ]) | j -> j)
 
+let cmd_segment (req : json) : json = jstmt (stmt_segment_then_byte (to_z (field req "start")) (to_z (field req "pc")))
+
 let cmd_name (req : json) : json = jsite jtext (name_from_string (text_of (field req "text")))
 
 let cmd_loop (req : json) : json =
@@ -81,10 +83,6 @@ let cmd_branch (req : json) : json =
 
 let cmd_known (req : json) : json =
   let l = ref [] in
-  (match field req "pc" with Null -> () | j ->
-     let u k d = match field req k with Null -> d | x -> pc_from_i64 (to_z x) in
-     let pc = pc_from_i64 (to_z j) in
-     l := ("pc", Bool (known_pc_out_of_range pc (u "initial" pc) (u "target" pc))) :: !l);
   (match field req "text" with Null -> () | j ->
      let t = text_of j in
      l := ("nesting", jnat (nesting_depth O O t)) :: ("deep", Bool (known_deep_nesting t)) :: !l);
@@ -95,7 +93,9 @@ let cmd_replay (req : json) : json =
   let obs = List.map (fun o ->
       { o_errors = nat_of_int (to_int (field o "ne")); o_errors_digest = to_z (field o "e");
         o_undefined = nat_of_int (to_int (field o "nu")); o_undefined_digest = to_z (field o "u");
-        o_symbols_added = to_bool (field o "added"); o_segments = nat_of_int (to_int (field o "nseg")) }) (to_list (field req "trace")) in
+        (* "the pass asks for another one": symbols added and/or symbols changed, whichever the source consults *)
+        o_symbols_added = (clean_needs_no_new_symbols && to_bool (field o "added")) || (clean_needs_no_changed_symbols && to_int (field o "changed") > 0);
+        o_segments = nat_of_int (to_int (field o "nseg")) }) (to_list (field req "trace")) in
   let cap = (match field req "cap" with Null -> max_iterations | Str "none" -> None | j -> Some (nat_of_int (to_int j))) in
   match replay_trace cap obs with
   | Exited (n, x) ->
@@ -108,5 +108,5 @@ let cmd_consts (_ : json) : json =
   Obj [ ("max_iterations", jopt jnat max_iterations); ("cap_reports_diagnostic", Bool cap_reports_diagnostic);
         ("nesting_limit", jnat nesting_limit); ("huge_loop_threshold", jz huge_loop_threshold) ]
 
-let () = main_loop [ ("binop", cmd_binop); ("literal", cmd_literal); ("stmt", cmd_stmt); ("name", cmd_name); ("loop", cmd_loop);
+let () = main_loop [ ("binop", cmd_binop); ("literal", cmd_literal); ("stmt", cmd_stmt); ("name", cmd_name); ("segment", cmd_segment); ("loop", cmd_loop);
                      ("depth", cmd_depth); ("bank", cmd_bank); ("branch", cmd_branch); ("known", cmd_known); ("replay", cmd_replay); ("consts", cmd_consts) ]
